@@ -14,6 +14,7 @@ func main() {
 		hx.Fatal("usage: udpnat replay|c18|conc|dns17 ...")
 	}
 	mode := os.Args[1]
+	startMemoryWatchdog()
 	fs := flag.NewFlagSet(mode, flag.ExitOnError)
 	in := fs.String("in", "", "behaviours json")
 	out := fs.String("out", "trace.ndjson", "trace output")
